@@ -10,7 +10,9 @@ EXPLANATION = (
     "builds default features only); (R-SUBSET) deliberate subset matches handle at least what their guarding "
     "predicate admits; (R-PARSE) format_code reaches format_ast only on the Ok edge of the parse result and "
     "builds Ok only there; (R-HEUR) trial formatting inside function_args_multiline_heuristic is bounded by the "
-    "simple_heuristics flag. Decides these clauses, not the behaviour: value-dependent panics (usize "
+    "simple_heuristics flag; (R-BELIEF) the failure edge of a text conversion of token text (str::parse, "
+    "from_str_radix, ...) never runs straight into unreachable!/panic!/unwrap - Lua's literal grammar is wider than "
+    "Rust's parsers. Decides these clauses, not the behaviour: value-dependent panics (usize "
     "subtraction, unwrap on positions), stack depth and running time are not decided (census reported only).")
 ASSUMPTIONS = [
     "rustc MIR and Instance::try_resolve are trusted",
@@ -211,6 +213,76 @@ def rule_heur(ctx, prop):
     return rep
 
 
+FALLIBLE_TEXT = re.compile(r"(<impl str>::parse|::from_str_radix|FromStr>::from_str|char::from_u32|"
+                           r"char::methods::<impl char>::from_digit|str::from_utf8)$")
+
+
+def rule_belief(ctx, prop):
+    """a stated belief contradicted by the code: the failure of converting *input text* (str::parse, from_str_radix,
+    ...) leads straight to unreachable!/panic!/unwrap. Lua's number grammar is wider than Rust's parsers (hex floats,
+    integers wider than 64 bits, suffixes), so such a failure is reachable from valid programs."""
+    rep = Report(prop, "R-BELIEF", "no explicit panic (unreachable!/panic!/unwrap/expect) is reached directly from the "
+                                   "failure edge of a text conversion (str::parse, from_str_radix, ...) of token text")
+    for cfg, prog in ctx.programs.items():
+        n = 0
+        for f in prog.fns("stylua_lib"):
+            conv = [(b, t) for b, t in f.calls() if FALLIBLE_TEXT.search(callee(t).split("::<")[0]) or
+                    FALLIBLE_TEXT.search(callee(t))]
+            if not conv:
+                continue
+            conv_locals = {t["dst"]["l"]: b for b, t in conv if "p" not in t["dst"]}
+            for cb, ct in conv:
+                n += 1
+                l = ct["dst"]["l"]
+                bad = None
+                # (1) unwrap / expect directly on the result
+                for u in forward_uses(f, l):
+                    if u[0] == "call" and re.search(r"(Result|Option)::<.*>::(unwrap|expect)$", callee(u[2])) and u[3] == 0:
+                        bad = ("unwrap", u[2])
+                # (2) the failure edge runs into an explicit panic without any other decision in between
+                for sb in range(len(f.blocks)):
+                    si = switch_info(f, sb)
+                    if not si or si["place"].get("l") != l or si["place"].get("p"):
+                        continue
+                    fail = si["targets"].get("Err", si["targets"].get("None"))
+                    if fail is None:
+                        fail = si["otherwise"]
+                    seen = set()
+                    work = [fail]
+                    while work and bad is None:
+                        b = work.pop()
+                        if b in seen or b is None:
+                            continue
+                        seen.add(b)
+                        blk = f.blocks[b]
+                        if blk.get("cleanup"):
+                            continue
+                        t = blk["term"]
+                        if t["k"] == "call":
+                            if is_panic_call(t):
+                                bad = ("panic", t)
+                                break
+                            work.append(t.get("t"))
+                        elif t["k"] in ("goto", "drop", "assert"):
+                            work.append(t["t"])
+                        elif t["k"] == "switch":
+                            si2 = switch_info(f, b)
+                            if si2 and si2["place"].get("l") in conv_locals and not si2["place"].get("p"):
+                                # another conversion attempt: only its failure edge continues the belief
+                                f2 = si2["targets"].get("Err", si2["targets"].get("None"))
+                                work.append(f2 if f2 is not None else si2["otherwise"])
+                            # any other decision: the panic, if any, is guarded by something we do not judge
+                rep.inst(f"{f.key} {callee(ct).split('::')[-1]} failure edge does not panic", {"at": f.loc(ct["sp"])}, cfg, ok=bad is None)
+                if bad:
+                    rep.violation(f"{f.key} panic-on-unconvertible-text via={callee(ct).split('::')[-1]} kind={bad[0]}",
+                                  f"{f.path}: when {callee(ct)} fails on token text the code panics "
+                                  f"({'unwrap/expect on the result' if bad[0] == 'unwrap' else 'unreachable!/panic! on the failure edge'}); "
+                                  f"Lua accepts literals Rust's parsers reject (hex floats, integers wider than 64 bits), "
+                                  f"so a valid program makes the library call panic", f.loc(bad[1]["sp"]), cfg)
+        rep.floor("text conversions examined", n, 2, cfg)
+    return rep
+
+
 def rule_census(ctx, prop):
     """informational: remaining panic sites in stylua_lib (not armed)."""
     rep = Report(prop, "R-CENSUS", "informational census of explicit panic sites in stylua_lib (not armed: whether "
@@ -232,5 +304,6 @@ def run(ctx):
     reps = r_exh.run_exh(ctx, "C07")
     reps.append(rule_parse(ctx, "C07"))
     reps.append(rule_heur(ctx, "C07"))
+    reps.append(rule_belief(ctx, "C07"))
     reps.append(rule_census(ctx, "C07"))
     return reps
